@@ -565,6 +565,83 @@ def rs_new_table(prog, rep, R):
 
 # =========================================================================== C09
 
+def newline_use_discipline(prog, rep, R):
+    """The configured newline string is only appended (emitters) or measured by its length (cursor code): it never decides anything."""
+    sites = [c for c in prog.who_calls(RS + "::get_newline_str") if c.body.crate.startswith("pasfmt") and nondebug(c.body.npath)]
+    allowed = {RCL: "push", "pasfmt_core::rules::optimising_line_formatter::multiline_strings::StringFormatter::try_rewrite_string": "push",
+               "pasfmt_core::defaults::reconstructor::DelphiLogicalLinesReconstructor::ws_len": "len", "pasfmt_core::defaults::reconstructor::DelphiLogicalLinesReconstructor::nl_len": "len"}
+    for c in sites:
+        base = c.body.npath
+        root = base if base in allowed else (base.split("::{closure")[0] + "::{closure#0}" if base.startswith(RCL) else base)
+        how = allowed.get(base) or (allowed.get(RCL) if base.startswith(RCL) else None)
+        if not rep.check(how is not None, R, "who-calls:get_newline_str:" + short(base), "get_newline_str is used in %s" % short(base), where=c.where()):
+            continue
+        # the result is only pushed / measured
+        dst = c.t["dst"]["l"]
+        users = []
+        og = Origins(c.body)
+        for c2 in c.body.calls():
+            if c2.bb == c.bb:
+                continue
+            for a in c2.args:
+                if a["k"] in ("copy", "move") and any(x[0] == "call" and x[1] == c.bb for x in og.of_operand(a)):
+                    users.append(c2.callee)
+        okset = {"alloc::string::String::push_str"} if how == "push" else {"core::str::len"}
+        rep.check(set(users) <= okset and users, R, "newline-str-use:%s" % short(base), "the newline string is used by %s in %s (allowed: %s)" % (users, short(base), sorted(okset)), where=c.where(),
+                  instance={"body": short(base), "use": sorted(set(u.split("::")[-1] for u in users))})
+    rep.floor(R, "get_newline_str call sites", len(sites), 5)
+    fr = sorted({a[0].npath for a in prog.field_accesses(RS, "newline_str") if nondebug(a[0].npath)})
+    inventory(rep, R, "readers of ReconstructionSettings.newline_str", fr, [RS + "::get_newline_str", "<pasfmt_core::lang::ReconstructionSettings as core::clone::Clone>::clone"], "only the getter hands out the configured line ending")
+    gb = prog.body(RS + "::get_newline_str")
+    if gb is not None:
+        rep.check(canon(gb, {"k": "copy", "place": {"l": 0, "p": []}}) in ("arg1.newline_str",), R, "getter-returns-field", "get_newline_str does not return self.newline_str")
+
+
+def multiline_measure(prog, rep, R):
+    """Whole-token lengths never measure a multi-line token: the column after such a token is the length of its last line (`lines()`)."""
+    TL = OLF + "TokenLength"
+    # ---------------------------------------------------------------- C09.e whole-token lengths never measure a multi-line token
+    from progress import dominating_variant_facts
+    # M-functions: bodies of the wrapper that look at the last line (`lines()`) of a token under a TextLiteral/Comment type test
+    mfun = set()
+    for b2 in prog.bodies.values():
+        if not b2.npath.startswith(OLF):
+            continue
+        for c in b2.calls_to("core::str::lines"):
+            fx = dominating_variant_facts(prog, b2, c.bb)
+            if any("get_token_type(" in f[0] and "TextLiteral" in f[2] for f in fx):
+                mfun.add(b2.npath)
+    rep.check(len(mfun) >= 1, R, "anchor:last-line-measure", "no function of the wrapper measures the last line of a multi-line token any more", instance={"last_line_measurers": sorted(short(m) for m in mfun)})
+
+    def override_sites(b2):
+        out = []
+        for c in b2.calls():
+            tg = {c.callee, c.resolved}
+            if tg & mfun:
+                out.append(c)
+                continue
+            for a in c.args:
+                if a["k"] in ("copy", "move") and not a["place"]["p"]:
+                    clos = b2.locals[a["place"]["l"]].get("closure")
+                    cb = prog.body(norm(clos)) if clos else None
+                    if cb is not None and (cb.npath in mfun or any({x.callee, x.resolved} & mfun for x in cb.calls())):
+                        out.append(c)
+        return out
+    nread = 0
+    for (b2, bb, i, kind, s2) in prog.field_accesses(TL, "content"):
+        if kind not in ("read", "ref") or not nondebug(b2.npath):
+            continue
+        nread += 1
+        ms = override_sites(b2)
+        dominated = any(b2.dominates(m.bb, bb) for m in ms)
+        must_after = bool(ms) and not b2.can_reach_avoiding(bb, set(b2.return_blocks()), {m.bb for m in ms})
+        rep.check(dominated or must_after, R, "override:" + short(b2.npath),
+                  "%s reads a token's whole content length (which counts every line of a multi-line literal and its line-ending bytes) without consulting the last-line measure of multi-line tokens %s — "
+                  "a line starting with a multi-line string is then wrapped differently under line_ending=crlf and lf" % (short(b2.npath), sorted(short(m) for m in mfun)),
+                  where="%s:%d" % (b2.file, abs(s2.get("line", 0)) if isinstance(s2, dict) else 0), instance={"reader": short(b2.npath), "override": "dominating" if dominated else "on every path to return"})
+    rep.floor(R, "reads of TokenLength.content", nread, 2)
+
+
 def _rv_ops(rv):
     return [o for o in (rv.get("op"), rv.get("a"), rv.get("b")) if isinstance(o, dict)] + [o for o in rv.get("ops", []) if isinstance(o, dict)]
 
@@ -628,33 +705,7 @@ def check_c09(prog, rep, tier, cfg):
               where=bad[0].where() if bad else None, instance={"pattern_or_log_uses": n_pat})
     rep.floor(R, "CR/LF constants used as patterns (split/contains/rfind/trim/memchr/log)", n_pat, 10)
     # ---------------------------------------------------------------- C09.b who uses the newline string, and how
-    R = "C09.b"
-    sites = [c for c in prog.who_calls(RS + "::get_newline_str") if c.body.crate.startswith("pasfmt") and nondebug(c.body.npath)]
-    allowed = {RCL: "push", "pasfmt_core::rules::optimising_line_formatter::multiline_strings::StringFormatter::try_rewrite_string": "push",
-               "pasfmt_core::defaults::reconstructor::DelphiLogicalLinesReconstructor::ws_len": "len", "pasfmt_core::defaults::reconstructor::DelphiLogicalLinesReconstructor::nl_len": "len"}
-    for c in sites:
-        base = c.body.npath
-        root = base if base in allowed else (base.split("::{closure")[0] + "::{closure#0}" if base.startswith(RCL) else base)
-        how = allowed.get(base) or (allowed.get(RCL) if base.startswith(RCL) else None)
-        if not rep.check(how is not None, R, "who-calls:get_newline_str:" + short(base), "get_newline_str is used in %s" % short(base), where=c.where()):
-            continue
-        # the result is only pushed / measured
-        dst = c.t["dst"]["l"]
-        users = []
-        og = Origins(c.body)
-        for c2 in c.body.calls():
-            if c2.bb == c.bb:
-                continue
-            for a in c2.args:
-                if a["k"] in ("copy", "move") and any(x[0] == "call" and x[1] == c.bb for x in og.of_operand(a)):
-                    users.append(c2.callee)
-        okset = {"alloc::string::String::push_str"} if how == "push" else {"core::str::len"}
-        rep.check(set(users) <= okset and users, R, "newline-str-use:%s" % short(base), "the newline string is used by %s in %s (allowed: %s)" % (users, short(base), sorted(okset)), where=c.where(),
-                  instance={"body": short(base), "use": sorted(set(u.split("::")[-1] for u in users))})
-    rep.floor(R, "get_newline_str call sites", len(sites), 5)
-    gb = prog.body(RS + "::get_newline_str")
-    if gb is not None:
-        rep.check(canon(gb, {"k": "copy", "place": {"l": 0, "p": []}}) in ("arg1.newline_str",), R, "getter-returns-field", "get_newline_str does not return self.newline_str")
+    newline_use_discipline(prog, rep, "C09.b")
     # ---------------------------------------------------------------- C09.d the wrapper's cached content lengths follow the normalised text
     R = "C09.d"
     of = prog.body(OLF_FMT)
@@ -682,47 +733,7 @@ def check_c09(prog, rep, tier, cfg):
                   "the content lengths cached before wrapping are not re-read (len(get_content())) for the tokens of a line whose multi-line strings were rewritten, before that line is re-flowed — "
                   "a literal with CRLF interior breaks is then measured longer than the same literal with LF, so CRLF and LF inputs wrap differently (and the result is not a fixpoint)",
                   where="%s:%d" % (of.file, of.line), instance={"cache": "InternalOptimisingLineFormatter.token_lengths", "refresh": "token_length.content = token.get_content().len()", "stores_found": len(stores)})
-    # ---------------------------------------------------------------- C09.e whole-token lengths never measure a multi-line token
-    R = "C09.e"
-    from progress import dominating_variant_facts
-    # M-functions: bodies of the wrapper that look at the last line (`lines()`) of a token under a TextLiteral/Comment type test
-    mfun = set()
-    for b2 in prog.bodies.values():
-        if not b2.npath.startswith(OLF):
-            continue
-        for c in b2.calls_to("core::str::lines"):
-            fx = dominating_variant_facts(prog, b2, c.bb)
-            if any("get_token_type(" in f[0] and "TextLiteral" in f[2] for f in fx):
-                mfun.add(b2.npath)
-    rep.check(len(mfun) >= 1, R, "anchor:last-line-measure", "no function of the wrapper measures the last line of a multi-line token any more", instance={"last_line_measurers": sorted(short(m) for m in mfun)})
-
-    def override_sites(b2):
-        out = []
-        for c in b2.calls():
-            tg = {c.callee, c.resolved}
-            if tg & mfun:
-                out.append(c)
-                continue
-            for a in c.args:
-                if a["k"] in ("copy", "move") and not a["place"]["p"]:
-                    clos = b2.locals[a["place"]["l"]].get("closure")
-                    cb = prog.body(norm(clos)) if clos else None
-                    if cb is not None and (cb.npath in mfun or any({x.callee, x.resolved} & mfun for x in cb.calls())):
-                        out.append(c)
-        return out
-    nread = 0
-    for (b2, bb, i, kind, s2) in prog.field_accesses(TL, "content"):
-        if kind not in ("read", "ref") or not nondebug(b2.npath):
-            continue
-        nread += 1
-        ms = override_sites(b2)
-        dominated = any(b2.dominates(m.bb, bb) for m in ms)
-        must_after = bool(ms) and not b2.can_reach_avoiding(bb, set(b2.return_blocks()), {m.bb for m in ms})
-        rep.check(dominated or must_after, R, "override:" + short(b2.npath),
-                  "%s reads a token's whole content length (which counts every line of a multi-line literal and its line-ending bytes) without consulting the last-line measure of multi-line tokens %s — "
-                  "a line starting with a multi-line string is then wrapped differently under line_ending=crlf and lf" % (short(b2.npath), sorted(short(m) for m in mfun)),
-                  where="%s:%d" % (b2.file, abs(s2.get("line", 0)) if isinstance(s2, dict) else 0), instance={"reader": short(b2.npath), "override": "dominating" if dominated else "on every path to return"})
-    rep.floor(R, "reads of TokenLength.content", nread, 2)
+    multiline_measure(prog, rep, "C09.e")
     # ---------------------------------------------------------------- C09.f the lexer treats CR and LF alike wherever a line end can end a token
     R = "C09.f"
     LXP = "pasfmt_core::defaults::lexer::"
@@ -871,6 +882,10 @@ def check_c10(prog, rep, tier, cfg):
         cs = sorted({c.body.npath.split("::{closure")[0] for c in prog.who_calls(RS + "::" + g) if c.body.crate.startswith("pasfmt") and nondebug(c.body.npath)})
         inventory(rep, R, "users of " + g, cs, [RECON, "pasfmt_core::rules::optimising_line_formatter::multiline_strings::StringFormatter::try_rewrite_string",
                                                  "pasfmt_core::defaults::reconstructor::DelphiLogicalLinesReconstructor::nonbreaking_ws_len", OLF + "types::LineWhitespace::len"], "emit / measure / cursor only")
+    # the strings are reachable only through their getters (whose users are inventoried above)
+    for f, g in (("indentation_str", "get_indentation_str"), ("continuation_str", "get_continuation_str")):
+        fr = sorted({a[0].npath for a in prog.field_accesses(RS, f) if nondebug(a[0].npath)})
+        inventory(rep, R, "readers of ReconstructionSettings." + f, fr, [RS + "::" + g, "<pasfmt_core::lang::ReconstructionSettings as core::clone::Clone>::clone"], "only the getter hands out the configured string")
     tr = prog.body("pasfmt_core::rules::optimising_line_formatter::multiline_strings::StringFormatter::try_rewrite_string")
     if rep.check(tr is not None, R, "anchor:try_rewrite_string", "try_rewrite_string not found"):
         prs = []
@@ -961,6 +976,9 @@ def check_c11(prog, rep, tier, cfg):
             # value copied into a struct / passed on
             rep.fail(R, "use:%s:escapes" % short(b.npath), "max_line_length is read in %s but not used in a comparison (value escapes)" % short(b.npath), where="%s:%d" % (b.file, abs(s.get("line", 0))))
     rep.floor(R, "arithmetic/comparison uses of max_line_length", n, 3)
+    # ---------------------------------------------------------------- C11.c what is compared with the limit is the column the text will really occupy
+    newline_use_discipline(prog, rep, "C11.c")
+    multiline_measure(prog, rep, "C11.c")
 
 
 PROPERTIES = {
@@ -968,7 +986,7 @@ PROPERTIES = {
             "Structural clause of C06 (information-flow necessary condition): the complete inventory of program points that read the input's layout — a token's leading whitespace, "
             "its whole text, ws_len, the original newline/space counters, the text preceding a token in the lexer, LexState.is_first — equals the reviewed set: whitespace-to-counts "
             "reduction, the two comment classifiers (first-on-line), asm line breaks, the clamp(1,2) on the first token of a solved line, max_one_either_side (0-vs-some), the "
-            "length table, emission, cursor code; every decision of a solved line overwrites newlines/indentation/continuation. Not decided: lines without a solution keep input "
+            "length table, emission, cursor code; every decision of a solved line overwrites newlines/indentation/continuation; (c) the spacing table decides every gap: for every (previous kind, next kind) pair either `after` of the first or `before` of the second is set (Comment(InlineLine) exempt: always followed by a line break). Not decided: lines without a solution keep input "
             "counters; that the allowed readers pass no more than the allowed fact.", []),
     "C08": (check_c08,
             "Structural clauses of C08: (a) emission order newlines < indentation < continuation < spaces < content with each counter paired with its string; (b) the only writers of "
@@ -980,13 +998,14 @@ PROPERTIES = {
             "Structural clauses of C09: (a) the only CR/LF text that can reach the output comes from ReconstructionSettings::new, which pairs Crlf with \"\\r\\n\" and Lf with \"\\n\"; "
             "the settings are immutable and constructed only there; no other CR/LF literal is appended to any string (all other uses are patterns or log text); (b) the newline "
             "string is only pushed or measured, never inspected, so the choice cannot influence a decision; (c) the configuration enum maps Crlf->Crlf, Lf->Lf, Native->Lf here. "
-            "Not decided: equality of the outputs for CRLF vs LF inputs.", []),
+            "(d) cached token lengths are refreshed after the string rewrite; (e) every read of a whole-token content length is overridden by the last-line measure of multi-line tokens; (f) every line-end test in the lexer treats CR and LF alike (a search for one only is tolerated as a presence test). "
+            "Not decided: equality of the outputs for CRLF vs LF inputs beyond these necessary conditions.", []),
     "C10": (check_c10,
             "Structural clauses of C10: (a) use_tabs/tab_width/continuation_indents are read only at the conversion to ReconstructionSettings (and docs), whose table is "
             "Soft: (tab_width, continuation_indents x tab_width saturating), Hard: (1, continuation_indents); (b) wrapper and reconstructor receive the same settings value; "
             "(c) measuring (LineWhitespace::len), cursor width (nonbreaking_ws_len) and emission pair indentations with the indentation string and continuations with the "
-            "continuation string; the strings are repeat(' ' | '\\t', width). Not decided: the relation between two runs.", []),
+            "continuation string (try_rewrite_string included); emitters only append the configured strings (measuring tolerated as a capacity hint), the string fields are read only by their getters; the strings are repeat(' ' | '\\t', width). Not decided: the relation between two runs.", []),
     "C11": (check_c11,
             "Structural clause of C11: wrap_column reaches core only as max_line_length (unchanged), which is used only as the right operand of `length > max` and as the subtrahend "
-            "of the excess `length - max` under that comparison — no equality test, no other arithmetic, no escape. Not decided: the relations between two widths.", []),
+            "of the excess `length - max` under that comparison — no equality test, no other arithmetic, no escape; inside the conversion the width has a single use; (c) the measured column does not depend on the configured newline and counts multi-line tokens by their last line. Not decided: the relations between two widths.", []),
 }
